@@ -6,8 +6,9 @@ prop, src, name = sys.argv[1:4]
 tier = sys.argv[4] if len(sys.argv) > 4 else "quick"
 dst = f"/verif/seeded/{name}"
 os.makedirs(dst, exist_ok=True)
-for f in os.listdir(src):
-    shutil.copy(os.path.join(src, f), dst)
+if os.path.realpath(src) != os.path.realpath(dst):
+    for f in os.listdir(src):
+        shutil.copy(os.path.join(src, f), dst)
 meta_p = os.path.join(dst, "meta.json")
 meta = json.load(open(meta_p)) if os.path.exists(meta_p) else {"property": prop}
 st = subprocess.run(["git", "-C", "/repo", "status", "--short"], capture_output=True, text=True).stdout
